@@ -102,8 +102,8 @@ theorem chunks_map {α β : Type} (f : α → β) {cs : Nat} (hcs : 1 ≤ cs) (l
         ← List.map_drop,
         ih (l.drop cs).length (by simp only [List.length_drop]; omega) (l.drop cs) rfl]
 
-/-- number of batches `imap_unordered` cuts `S` shots into for a pool of `n` workers -/
-def nBatches (S n : Nat) : Nat := (chunks (chunksize S n) (List.range S)).length
+/-- number of batches `imap_unordered` cuts `S` shots into for the chunk size `cs` -/
+def nBatches (cs S : Nat) : Nat := (chunks cs (List.range S)).length
 
 theorem mkArgs_eq_map (r p : Bool) (g : Gen) (S : Nat) :
     ∃ mk : Nat → Arg, (∀ i, (mk i).index = i) ∧ (mkArgs r p g S).1 = (List.range S).map mk := by
@@ -112,10 +112,10 @@ theorem mkArgs_eq_map (r p : Bool) (g : Gen) (S : Nat) :
   · exact ⟨fun i => ⟨i, some (.child g.pos i)⟩, fun _ => rfl, rfl⟩
   · exact ⟨fun i => ⟨i, none⟩, fun _ => rfl, rfl⟩
 
-theorem nBatches_eq (r p : Bool) (g : Gen) (S n : Nat) :
-    (chunks (chunksize S n) (mkArgs r p g S).1).length = nBatches S n := by
+theorem nBatches_eq (r p : Bool) (g : Gen) (S : Nat) {cs : Nat} (hcs : 1 ≤ cs) :
+    (chunks cs (mkArgs r p g S).1).length = nBatches cs S := by
   obtain ⟨mk, _, h⟩ := mkArgs_eq_map r p g S
-  rw [h, chunks_map mk (chunksize_pos S n)]
+  rw [h, chunks_map mk hcs]
   simp [nBatches]
 
 /-! ### one process running shots -/
@@ -194,6 +194,11 @@ theorem cum_mono (len : Nat → Nat) {i j : Nat} (h : i < j) : cum len i + len i
     · have := ih h
       simp only [cum]; omega
     · simp [cum]
+
+theorem sum_map_range_eq_cum (len : Nat → Nat) (S : Nat) : ((List.range S).map len).sum = cum len S := by
+  induction S with
+  | zero => simp [cum]
+  | succ S ih => simp [List.range_succ, ih, cum]
 
 theorem seqSrcs_range' (len : Nat → Nat) (st : Stream) (p0 : Nat) (a n : Nat) :
     seqSrcs len ⟨st, p0 + cum len a⟩ (List.range' a n)
